@@ -98,7 +98,8 @@ class Script:
     """One TLS connection. `shape` keys (all optional):
        abbreviated (bool), sid_len (0..32), extra_exts (bytes, ServerHello), etm (bool, CBC suites, not SSL 3.0),
        group ('each' | 'flight' | 'pairs': how whole handshake messages are grouped into records),
-       hs_secrets (bool, TLS 1.3: handshake secrets present in the key log), pad13 (callable rng→pad length),
+       hs_secrets (bool, TLS 1.3: handshake secrets present in the key log), warn_alert (bool, ≤ TLS 1.2 full handshake:
+       a clear-text warning alert precedes the ServerHello; the connection continues), pad13 (callable rng→pad length),
        tickets (int, post-handshake NewSessionTicket records, TLS 1.3), offer (list of extra suite codes offered)."""
 
     def __init__(self, version, code, app, rng, **shape):
@@ -245,7 +246,8 @@ class Script:
             flights.append((1, rec(22, ver, sh_msg) + ccs + self._group(1, [hs(20, rng.randbytes(12))], True)))
             flights.append((0, ccs + self._group(0, [hs(20, rng.randbytes(12))], True)))
         else:
-            flights.append((1, self._group(1, [sh_msg, hs(11, rng.randbytes(100)), hs(14, b"")], False)))
+            warn = rec(21, ver, b"\x01\x70") if sh.get("warn_alert") else b""   # clear-text warning (unrecognized_name)
+            flights.append((1, warn + self._group(1, [sh_msg, hs(11, rng.randbytes(100)), hs(14, b"")], False)))
             flights.append((0, self._group(0, [hs(16, rng.randbytes(64))], False) + ccs
                             + self._group(0, [hs(20, rng.randbytes(12))], True)))
             tick = [hs(4, rng.randbytes(30))] if sh.get("tickets", 1) else []
